@@ -15,7 +15,7 @@ RULE = ("trees {group of 2, group of 3 with a hard link, two groups, two --isola
         "delete+recreate other bytes, replace by directory, by dangling symlink, by symlink to a fresh file, by symlink to an old file of the same length, replace by a named pipe, touch} x "
         "position: the external mutator is interleaved at EVERY event k (file-system read calls and clock reads) of the "
         "recorded `group -t 1` run from the first access to f until process exit (quick: one position per phase), plus "
-        "'between group and dedupe' (the pair tree also with both commands running in time zones UTC+9, UTC-8, UTC+5:30, and with the dedupe command running in another zone than `group`: +9 -> 0, 0 -> -8, -8 -> +9, +5:30 -> +4:30); then each dedupe op {remove, link, link --soft, dedupe, move} and {remove, link, move} x {-n 1, --rf-over 1, --priority newest, --no-lock, --keep-name <matches nothing>} (quick: remove, link, remove -n 1, link --priority newest) "
+        "'between group and dedupe' (the pair tree also with both commands running in time zones UTC+9, UTC-8, UTC+5:30, and with the dedupe command running in another zone than `group`: +9 -> 0, 0 -> -8, -8 -> +9, +5:30 -> +4:30); then each dedupe op {remove, link, link --soft, dedupe, move} and {remove, link, move} x {-n 1, --rf-over 1, --priority newest, --no-lock, --keep-name <matches nothing>, --keep-name / --name / --keep-path patterns that protect one member} (quick: remove, link, remove -n 1, link --priority newest, and four protecting patterns) "
         "acts on the report that run produced. A state is one complete (group || mutator ; dedupe) execution, "
         "transitions are the events of the group history. Invariant: every content digest held by a regular file just "
         "before the dedupe run is still held by one afterwards (tree + move target); files outside the groups untouched.")
@@ -43,9 +43,12 @@ MUTATIONS = ["rewrite_same_len", "rewrite_other_len", "append", "truncate", "del
 OPS = ["remove", "link", "softlink", "dedupe", "move"]
 # options of the dedupe command that must not switch the staleness guard off (op|option set)
 OPTSETS = {"": [], "n1": ["-n", "1"], "rfover1": ["--rf-over", "1"], "newest": ["--priority", "newest"],
-           "nolock": ["--no-lock"], "keepnone": ["--keep-name", "no-such-name*"]}
+           "nolock": ["--no-lock"], "keepnone": ["--keep-name", "no-such-name*"],
+           # patterns that protect one member of the pair (f1 resp. f2) from being dropped
+           "keep_f1": ["--keep-name", "f1"], "keep_f2": ["--keep-name", "f2"], "name_f2": ["--name", "f2"],
+           "name_f1": ["--name", "f1"], "keep_path_a": ["--keep-path", "**/a/**"]}
 OPS_T = OPS + ["%s|%s" % (o, k) for o in ("remove", "link", "move") for k in OPTSETS if k]
-OPS_Q = ["remove", "link", "remove|n1", "link|newest"]
+OPS_Q = ["remove", "link", "remove|n1", "link|newest", "remove|keep_f1", "link|keep_f2", "remove|name_f2", "link|name_f1"]
 
 
 def prepare(tier):
